@@ -14,7 +14,7 @@ from ..gen import c17_exact as X
 from ..gen import c17_nets as G
 
 PID = "C17"
-KNOWN_LP_KEY = "C17:is_conservative:LP-branch-false-negative"
+KNOWN_LP_KEY = "stoich._positive_conservation_law_from_basis:LP-branch:false-negative"
 COQ_HEADER = ("From Coq Require Import List NArith ZArith.\nImport ListNotations.\n"
               "From SK Require Import lib.Tok lib.C17_Farkas model.C17_Model.\n")
 SHARD = 250
